@@ -9,4 +9,11 @@ open Gossamer.C31
 #print axioms C31_serve_genesis_desc_counterexample
 #print axioms C31_serve_by_number_length
 #print axioms wf_addSeg
+#print axioms wf_finalise
 #print axioms exampleTree_wf
+#print axioms prunedTree_wf
+#print axioms C31_limiter_refused_iff
+#print axioms C31_limiter_window
+#print axioms C31_limiter_repeat
+#print axioms C31_limiter_evicted
+#print axioms cacheOf_eq
